@@ -10,7 +10,7 @@ use std::panic::AssertUnwindSafe;
 use std::process::{Child, ChildStdin, ChildStdout, Command, Stdio};
 use std::sync::OnceLock;
 use surf_n_term::decoder::{verif, Decoder, TTYCommandDecoder, TTYEventDecoder, Utf8Decoder};
-use surf_n_term::{Key, KeyMod, KeyName, TerminalColor, TerminalCommand, TerminalEvent};
+use surf_n_term::{FaceModify, Key, KeyMod, KeyName, TerminalColor, TerminalCommand, TerminalEvent, UnderlineStyle, RGBA};
 
 // ------------------------------------------------------------------ running the implementation (child side)
 
@@ -84,6 +84,25 @@ fn enc_key(k: &Key, debug: String) -> Value {
     json!({"key": [lit, kind, arg, mod_bits(k.mode)]})
 }
 
+fn enc_rgb(c: &Option<RGBA>) -> Value {
+    match c {
+        None => Value::Null,
+        Some(c) => json!([c.red(), c.green(), c.blue()]),
+    }
+}
+
+fn enc_facem(f: &FaceModify) -> Value {
+    let ul = f.underline.map(|u| match u {
+        UnderlineStyle::None => 0,
+        UnderlineStyle::Straight => 1,
+        UnderlineStyle::Double => 2,
+        UnderlineStyle::Curly => 3,
+        UnderlineStyle::Dotted => 4,
+        UnderlineStyle::Dashed => 5,
+    });
+    json!({"facem": [f.reset, enc_rgb(&f.fg), enc_rgb(&f.bg), enc_rgb(&f.underline_color), ul, f.bold, f.italic, f.blink, f.strike]})
+}
+
 fn enc_event(e: &TerminalEvent) -> Value {
     match e {
         TerminalEvent::Raw(b) => json!({"raw": jbytes(b)}),
@@ -101,8 +120,8 @@ fn enc_event(e: &TerminalEvent) -> Value {
             TerminalColor::Background => json!({"color": [1, 0]}),
             TerminalColor::Palette(i) => json!({"color": [2, i]}),
         },
-        TerminalEvent::FaceGet(_) => json!("face"),
-        TerminalEvent::Command(TerminalCommand::FaceModify(_)) => json!("face"),
+        TerminalEvent::FaceGet(f) => json!({"faceget": [enc_rgb(&f.fg), enc_rgb(&f.bg)]}),
+        TerminalEvent::Command(TerminalCommand::FaceModify(f)) => enc_facem(f),
         TerminalEvent::Paste(s) => json!({"paste": jbytes(s.as_bytes())}),
         _ => json!("other"),
     }
@@ -112,7 +131,7 @@ fn enc_command(c: &TerminalCommand) -> Value {
     match c {
         TerminalCommand::Raw(b) => json!({"raw": jbytes(b)}),
         TerminalCommand::Char(c) => json!({"char": *c as u32}),
-        TerminalCommand::FaceModify(_) => json!("face"),
+        TerminalCommand::FaceModify(f) => enc_facem(f),
         _ => json!("other"),
     }
 }
@@ -333,10 +352,20 @@ fn cn_v(v: &Value) -> String {
     v.as_u64().map(|n| n.to_string()).unwrap_or_else(|| "0".into())
 }
 
+fn crgb(v: &Value) -> String {
+    match v.as_array() {
+        Some(a) if a.len() == 3 => format!("(Some ({}, {}, {}))", cn_v(&a[0]), cn_v(&a[1]), cn_v(&a[2])),
+        _ => "None".into(),
+    }
+}
+
+fn cobool(v: &Value) -> String {
+    copt(v.as_bool().map(|b| cbool(b).to_string()))
+}
+
 fn chev(v: &Value) -> String {
     if let Some(s) = v.as_str() {
         return match s {
-            "face" => "HFace".into(),
             "termcap" => "HTermcap".into(),
             _ => "HOther".into(),
         };
@@ -357,6 +386,19 @@ fn chev(v: &Value) -> String {
         "kitty" => format!("HKitty {} {} {}", at(0), copt(a[1].as_u64().map(|n| n.to_string())), cbool(a[2].as_bool().unwrap_or(false))),
         "color" => format!("HColor {} {}", at(0), at(1)),
         "paste" => format!("HPaste {}", cbytes(&vbytes(a))),
+        "faceget" => format!("HFaceG {} {}", crgb(&a[0]), crgb(&a[1])),
+        "facem" => format!(
+            "HFaceM {} {} {} {} {} {} {} {} {}",
+            cbool(a[0].as_bool().unwrap_or(false)),
+            crgb(&a[1]),
+            crgb(&a[2]),
+            crgb(&a[3]),
+            copt(a[4].as_u64().map(|n| n.to_string())),
+            cobool(&a[5]),
+            cobool(&a[6]),
+            cobool(&a[7]),
+            cobool(&a[8])
+        ),
         _ => "HOther".into(),
     }
 }
